@@ -62,3 +62,37 @@ Example proposal_trace_shape :
   map (fun w => match w with WRounds _ => 1 | WOps _ => 2 | _ => 0 end)%nat
       (trace_of (node_step 777 (empty_node 2%N 3%N) (InMsg w_proposal))) = [1; 2]%nat.
 Proof. vm_compute. reflexivity. Qed.
+
+(* ---- effect orders regenerated from node_service.go ---- *)
+Require Import Board.File.
+Require Gen.Skeletons.
+
+(* Poll: a message is handled before the offset past it is saved; hence a crash while handling
+   the message at offset o leaves the saved offset <= o and the message is fetched again *)
+Lemma poll_order_ok : Gen.Skeletons.poll_steps = [PLoadOffset; PGetMessages; PProcess; PSaveOffset].
+Proof. reflexivity. Qed.
+
+Fixpoint offset_after (steps : list pstep) (saved o : Z) : Z :=
+  match steps with
+  | [] => saved
+  | PSaveOffset :: r => offset_after r (o + 1)%Z o
+  | _ :: r => offset_after r saved o
+  end.
+Fixpoint index_of_process (steps : list pstep) (i : nat) : option nat :=
+  match steps with
+  | [] => None
+  | PProcess :: _ => Some i
+  | _ :: r => index_of_process r (S i)
+  end.
+
+Theorem crash_while_handling_refetches saved o :
+  (saved <= o)%Z ->
+  match index_of_process Gen.Skeletons.poll_steps 0 with
+  | Some i => (offset_after (firstn i Gen.Skeletons.poll_steps) saved o <= o)%Z   (* killed inside step i *)
+  | None => False
+  end.
+Proof. intros H. cbn. exact H. Qed.
+
+(* executeOperation: the result's messages are sent before the operation is retired *)
+Lemma execute_order_ok : Gen.Skeletons.execute_steps = [XLookup; XSend; XSaveFSM; XDelete].
+Proof. reflexivity. Qed.
